@@ -135,22 +135,73 @@ Proof.
   intros items. destruct (H items 0 []) as [l [H1 H2]]. exists l. split; [exact H1|cbn [length] in H2; lia].
 Qed.
 
-(* ------------------------------------------------------------------ fax geometry *)
-Theorem fax_capacity_sites columns rows : columns < U32 -> rows < U32 ->
-  (columns * rows <= ISIZE_MAX -> fax_capacity columns rows = Ok (columns * rows)) /\
-  (ISIZE_MAX < columns * rows -> fax_capacity columns rows = Panic 1002).
+Corollary differences_never_crashes items : never_crashes (differences items).
+Proof. destruct (differences_total items) as [l [H _]]. rewrite H. split; intros; discriminate. Qed.
+
+(* ------------------------------------------------------------------ fax_decode *)
+Lemma fax_guards_table :
+  fax_k_guard = 1 /\ fax_columns_guard = 1 /\ fax_rows_guard = 1 /\ fax_no_assert = 1 /\ fax_no_capacity = 1.
+Proof. repeat split; reflexivity. Qed.
+
+(* what the guards establish: the width is a non-zero u16, the height a u16 *)
+Lemma fax_geometry_post k columns rows :
+  post (fun g => 0 < fst g < U16 /\ fst g = columns /\
+                 match snd g with None => rows = 0 | Some r => r = rows /\ 0 < r < U16 end) (fax_geometry k columns rows).
 Proof.
-  intros Hc Hr. unfold fax_capacity.
-  assert (H : columns * rows < U64).
-  { unfold U32, U64 in *. assert (columns * rows <= 4294967295 * 4294967295) by (apply N.mul_le_mono; lia). lia. }
-  rewrite (ck_mul_ok _ _ _ H). cbn [bind]. split; intros Hx.
-  - apply N.ltb_ge in Hx. rewrite Hx. reflexivity.
-  - apply N.ltb_lt in Hx. rewrite Hx. reflexivity.
+  destruct fax_guards_table as (G1 & G2 & G3 & _ & G5).
+  unfold fax_geometry. rewrite G1, G2, G3, G5. change (1 =? 1) with true. cbv iota. rewrite Bool.andb_true_r.
+  destruct (0 <=? k)%Z; [cbn; exact I|].
+  destruct ((columns =? 0) || (U16 <=? columns)) eqn:Ec; [cbn; exact I|]. cbn [bind].
+  apply Bool.orb_false_iff in Ec. destruct Ec as [E1 E2]. apply N.eqb_neq in E1. apply N.leb_gt in E2.
+  destruct (rows =? 0) eqn:Er.
+  - apply N.eqb_eq in Er. cbn. split; [lia|]. split; [reflexivity|exact Er].
+  - apply N.eqb_neq in Er. destruct (U16 <=? rows) eqn:Eh; [cbn; exact I|]. apply N.leb_gt in Eh.
+    cbn. split; [lia|]. split; [reflexivity|]. split; [reflexivity|lia].
 Qed.
 
-Theorem fax_refuted : fax_capacity 4294967295 4294967295 = Panic 1002 /\ fax_check 0 0 = Panic 1003 /\
-  forall buf_len columns, 0 < columns -> fax_check buf_len columns = Ok (buf_len mod columns).
+Lemma fax_lines_post width : 0 < width -> forall lines len ok, post (fun _ => True) (fax_lines width lines len ok).
 Proof.
-  split; [vm_compute; reflexivity|]. split; [vm_compute; reflexivity|].
-  intros b c H. unfold fax_check, ck_rem. destruct (c =? 0) eqn:E; [apply N.eqb_eq in E; lia|reflexivity].
+  destruct fax_guards_table as (_ & _ & _ & G4 & _).
+  intros Hw. induction lines as [|n t IH]; intros len ok; cbn [fax_lines]; [cbn; exact I|].
+  unfold ck_rem. destruct (width =? 0) eqn:E; [apply N.eqb_eq in E; lia|]. cbn [bind].
+  destruct ((len + n) mod width =? 0); [apply IH|]. rewrite G4. change (1 =? 1) with true. cbv iota. apply IH.
 Qed.
+
+(* ANY parameters (the whole i32 / u32 range), any behaviour of the decoder: a value or an error *)
+Theorem fax_decode_total k columns rows decoded : columns < U32 -> rows < U32 ->
+  never_crashes (fax_decode k columns rows decoded).
+Proof.
+  intros Hc Hr. eapply post_never with (Q := fun _ => True). unfold fax_decode.
+  eapply post_bind; [apply fax_geometry_post|]. intros [w h] (Hw & _ & Hh). cbn [fst snd] in Hw, Hh.
+  destruct decoded as [lines|]; [|cbn; exact I].
+  eapply post_bind; [apply fax_lines_post; lia|]. intros [len ok] _.
+  destruct (negb ok); [cbn; exact I|].
+  destruct h as [rws|]; [|cbn; exact I]. destruct Hh as [_ Hh].
+  rewrite ck_mul_ok.
+  2:{ unfold U16, U64 in *. assert (w * rws <= 65535 * 65535) by (apply N.mul_le_mono; lia). lia. }
+  cbn [bind]. destruct (len =? w * rws); cbn; exact I.
+Qed.
+
+(* a declared height fixes the size of the result: at most 65535 * 65535 bytes, whatever the data *)
+Theorem fax_decode_bounded k columns rows decoded len : fax_decode k columns rows decoded = Ok len -> rows <> 0 ->
+  len = columns * rows /\ len <= 65535 * 65535.
+Proof.
+  unfold fax_decode. intros H Hr0.
+  pose proof (fax_geometry_post k columns rows) as G.
+  destruct (fax_geometry k columns rows) as [[w h]|e|s|]; cbn [bind] in H; try discriminate.
+  cbn [post fst snd] in G. destruct G as (Hw & Hwc & Hh).
+  destruct decoded as [lines|]; [|discriminate].
+  destruct (fax_lines w lines 0 true) as [[l ok]|e|s|]; cbn [bind] in H; try discriminate.
+  destruct (negb ok); [discriminate|].
+  destruct h as [rws|]; [|contradiction]. destruct Hh as [Hrw Hh]. subst rws w.
+  unfold ck_mul in H. destruct (columns * rows <? U64); cbn [bind] in H; [|discriminate].
+  destruct (l =? columns * rows) eqn:E; [|discriminate]. apply N.eqb_eq in E. inversion H; subst.
+  split; [reflexivity|]. unfold U16 in *. apply N.mul_le_mono; lia.
+Qed.
+
+Example fax_decode_examples :
+  fax_decode (-1) 8 2 (Some [8; 8]) = Ok 16 /\ fax_decode (-1) 0 0 (Some []) = Err E_NUM /\
+  fax_decode (-1) 65536 1 (Some []) = Err E_NUM /\ fax_decode (-1) 8 65536 (Some []) = Err E_NUM /\
+  fax_decode 0 8 1 (Some [8]) = Err E_NUM /\ fax_decode (-1) 4294967295 4294967295 None = Err E_NUM /\
+  fax_decode (-1) 8 0 (Some [8; 7]) = Err E_NUM /\ fax_decode (-1) 8 0 (Some [8; 8; 8]) = Ok 24.
+Proof. repeat split; vm_compute; reflexivity. Qed.
